@@ -81,11 +81,25 @@ def rhs_corr(ctx, spec, M, rng):
             return
 
 
-def one(ctx, rng, linear):
+# always run: a repeated reactant written with another species in between, and a reversible step written as one reaction
+# with a signed net rate (negative where the backward flux dominates)
+FIXED = [
+    {"species": ["A", "B", "C"], "reactions": [
+        {"reactants": ["A", "B", "A"], "products": ["C"], "prop": {"type": "massaction", "k": "k0"}},
+        {"reactants": ["C"], "products": [], "prop": {"type": "massaction", "k": "k1"}}],
+     "params": {"k0": 0.05, "k1": 0.3}, "ic": {"A": 6, "B": 2, "C": 0}},
+    {"species": ["A", "B", "C"], "reactions": [
+        {"reactants": ["A"], "products": ["B"], "prop": {"type": "general", "rate": "k0*A - k1*B"}},
+        {"reactants": ["B"], "products": ["C"], "prop": {"type": "massaction", "k": "k2"}}],
+     "params": {"k0": 0.5, "k1": 2.0, "k2": 0.1}, "ic": {"A": 1, "B": 6, "C": 0}},
+]
+
+
+def one(ctx, rng, linear, spec=None):
     from bioscrape.simulator import py_simulate_model
     from scipy.linalg import expm
     from scipy.integrate import solve_ivp
-    spec = gen_linear(rng) if linear else gen_nonlinear(rng)
+    spec = spec if spec is not None else (gen_linear(rng) if linear else gen_nonlinear(rng))
     T = gen_times(rng)
     if len(T) < 2:
         return
@@ -98,7 +112,8 @@ def one(ctx, rng, linear):
     rep = {"spec": spec, "times": T.tolist()}
     # ---- reference solution of dx/dt = (S + S_d) rate(x, t), computed first: it also decides whether the model is inside
     # the property's domain (bounded, non-stiff); models outside it are discarded before the implementation is run
-    S = np.array(M.py_get_update_array()) + np.array(M.py_get_delay_update_array())
+    from modelspec import spec_matrices
+    S = sum(spec_matrices(spec, sl)).astype(float)
     if linear:
         A = np.zeros((n, n)); b = np.zeros(n)
         pv = dict(zip(M.get_param_list(), M.get_parameter_values()))
@@ -113,16 +128,13 @@ def one(ctx, rng, linear):
         ref = np.array([(expm(Aug * t) @ np.append(x0, 1.0))[:n] for t in T])
         kind = "expm"
     else:
-        from bioscrape.simulator import ModelCSimInterface
-        I = ModelCSimInterface(build_model(spec))
-        I.py_prep_deterministic_simulation()
-        def f(t, x):
-            dx = np.zeros(n)
-            I.py_calculate_deterministic_derivative(np.array(x, dtype=float), dx, float(t))
-            return dx
+        # the reference integrates the rate equations written out from the reaction definitions (not the interface's own
+        # derivative: what the implementation hands back is an observation, never the oracle)
+        from modelspec import independent_rhs
+        f = independent_rhs(spec, sl)
         try:
             sol = solve_ivp(f, (float(T[0]), float(T[-1])), x0, method="DOP853", t_eval=T, rtol=1e-12, atol=1e-12)
-        except (TypeError, ValueError, FloatingPointError):
+        except (TypeError, ValueError, FloatingPointError, OverflowError, ZeroDivisionError):
             ctx.count("reference_unbounded_or_failed")       # the rate law left its domain (negative base of a power)
             return
         if not sol.success or np.max(np.abs(sol.y)) > 1e6 or sol.nfev > 60000 or np.min(sol.y) < -1e-9:
@@ -171,6 +183,8 @@ def one(ctx, rng, linear):
 
 def run(ctx):
     n = 40 if ctx.quick() else 1500
+    for spec in FIXED:
+        one(ctx, ctx.rng, linear=False, spec=spec)
     for i in range(n):
         one(ctx, ctx.rng, linear=(i % 2 == 0))
 
@@ -182,7 +196,7 @@ def replay(ctx, obj):
 def describe(ctx):
     rule = ("linear networks (first-order + zero-order reactions, delayed products counted as if the delay were zero) against "
             "expm(A t) closed forms; non-linear networks (mass action, Hill, general, explicitly time-dependent exp(-t/3) rates) against "
-            "solve_ivp(DOP853, rtol=atol=1e-12) on the interface's own derivative; uniform and irregular grids from 0; tolerance "
+            "solve_ivp(DOP853, rtol=atol=1e-12) on the rate equations written out from the reaction definitions (independent of the implementation); uniform and irregular grids from 0; tolerance "
             "2e-5(1+|x|); first row = initial condition; and rhs_global(x, t) (rules + derivative, the function handed to odeint) "
             "against the Lean rhsGlobal at random states/times (bitwise for mass action). distinct = (reference kind, reactions, "
             "grid size, irregular?, propensity types).")
